@@ -92,6 +92,9 @@ def entry(ctx, prog, f, g, ty, mut, has_ctx, worlds):
             if not c.get('local'):
                 return None
             d = short(c['def'])
+            if c['name'] == 'int_as_float' and path_endswith(c.get('trait') or '', 'EvalexprNumericTypes'):
+                # the numeric conversion stays a named term, also where the numeric types are known (entry points fixed to the default types)
+                return ('app', d, tuple(args))
             if d == 'token::tokenize':
                 calls.append((d, tuple(args)))
                 return tok_w
